@@ -365,6 +365,24 @@ func (h *Handler) Close() error {
 	return nil
 }
 
+// ClosePeerAssociations removes every association that was opened on behalf of the
+// given peer (called when that peer disconnects). Returns the number removed.
+func (h *Handler) ClosePeerAssociations(peerID identity.AgentID) int {
+	h.mu.RLock()
+	var ids []uint64
+	for id, assoc := range h.associations {
+		if assoc.PeerID == peerID {
+			ids = append(ids, id)
+		}
+	}
+	h.mu.RUnlock()
+
+	for _, id := range ids {
+		h.removeAssociation(id)
+	}
+	return len(ids)
+}
+
 // removeAssociation removes an association and cleans up resources.
 func (h *Handler) removeAssociation(streamID uint64) {
 	h.mu.Lock()
